@@ -64,6 +64,16 @@ fn preserved(before: &T, after: &T, added: usize) -> Option<String> {
 }
 
 pub fn run(ctx: &mut Ctx) {
+    // the process-wide known-values registry is a naming aid for formatting: an application may register its own
+    // value under any name, also one that collides with a well-known name. Nothing the salting functions do may
+    // depend on that registry.
+    {
+        let mut g = bc_envelope::KNOWN_VALUES.get();
+        if let Some(store) = g.as_mut() {
+            store.insert(KnownValue::new_with_name(100_015u64, "salt".to_string()));
+            store.insert(KnownValue::new_with_name(100_016u64, "isA".to_string()));
+        }
+    }
     let total = ctx.n(12_000, 1_000_000);
     for case in ctx.cases(total) {
         ctx.begin_case(case);
@@ -390,7 +400,8 @@ pub fn run(ctx: &mut Ctx) {
         // still attaches exactly one salt to what was given and independent saltings differ
         {
             let key = fresh_key(&mut rng);
-            let forms: Vec<(&str, Envelope)> = vec![("elided", plain.elide()), ("compressed", plain.compress().unwrap()), ("encrypted", plain.encrypt_subject(&key).unwrap())];
+            // (and the assertion as it comes out of an earlier salted add: it already carries one 'salt' assertion)
+            let forms: Vec<(&str, Envelope)> = vec![("elided", plain.elide()), ("compressed", plain.compress().unwrap()), ("encrypted", plain.encrypt_subject(&key).unwrap()), ("already-salted", plain.add_salt())];
             let with_plain = base.add_assertion_envelope(plain.clone()).unwrap();
             for (label, form) in forms {
                 ctx.eval();
@@ -406,13 +417,15 @@ pub fn run(ctx: &mut Ctx) {
                 match r {
                     Ok(Ok((a, b, c, s1, s2))) => {
                         let wp = env_bytes(&with_plain);
-                        if env_bytes(&a) != wp || env_bytes(&b) != wp || env_bytes(&c) != wp {
+                        // (the already-salted form is another assertion with another digest: it is legitimately added)
+                        if label != "already-salted" && (env_bytes(&a) != wp || env_bytes(&b) != wp || env_bytes(&c) != wp) {
                             ctx.violation(&format!("unsalted-add-of-present-form/{}", label), "adding (salted=false) another form of an assertion that is already present changed the envelope", replay());
                         }
                         check_spec(ctx, &a, "unsalted add of an obscured twin");
                         for sx in [&s1, &s2] {
                             let newly: Vec<Envelope> = sx.assertions().into_iter().filter(|x| !base.assertions().iter().any(|y| d32(y) == d32(x))).collect();
-                            if newly.len() != 1 || salts_of(&newly[0]).len() != 1 || d32(&newly[0].subject()) != d32(&plain) {
+                            let had = salts_of(&form).len();
+                            if newly.len() != 1 || salts_of(&newly[0]).len() != had + 1 || d32(&newly[0].subject()) != d32(&plain) {
                                 ctx.violation(&format!("add_assertion_salted/obscured-form/{}", label), "a salted add of an assertion given in obscured form did not add exactly one element carrying exactly one salt over that assertion", replay());
                             }
                         }
